@@ -201,13 +201,15 @@ trait IoLoopInner {
 
 impl<Data> IoLoopInner for LoopInner<'_, Data> {
     unsafe fn register(&self, dispatcher: &RefCell<IoDispatcher>) -> crate::Result<()> {
-        let disp = dispatcher.borrow();
+        let mut disp = dispatcher.borrow_mut();
         self.poll.borrow_mut().register(
             unsafe { BorrowedFd::borrow_raw(disp.fd) },
             Interest::EMPTY,
             Mode::OneShot,
             disp.token.expect("No token for IO dispatcher"),
-        )
+        )?;
+        disp.is_registered = true;
+        Ok(())
     }
 
     fn reregister(&self, dispatcher: &RefCell<IoDispatcher>) -> crate::Result<()> {
@@ -227,6 +229,19 @@ impl<Data> IoLoopInner for LoopInner<'_, Data> {
             .expect("No token for IO dispatcher");
         if let Ok(slot) = self.sources.borrow_mut().get_mut(token.inner) {
             slot.source = None;
+        }
+        // The file descriptor outlives the adapter if it is retrieved using `into_inner()`,
+        // so it must not remain in the polling system.
+        let mut disp = dispatcher.borrow_mut();
+        if disp.is_registered {
+            disp.is_registered = false;
+            if let Err(e) = self
+                .poll
+                .borrow()
+                .unregister(unsafe { BorrowedFd::borrow_raw(disp.fd) })
+            {
+                tracing::warn!("Failed to unregister IO object from the polling system: {e:?}");
+            }
         }
     }
 }
